@@ -745,7 +745,7 @@ def run_unit(u, tier, seed):
 CHAIN_FULL = [16, 17, 18, 19, 20, 33]           # versions per history; a fault at EVERY position, from EVERY start state
 CHAIN_LADDER = list(range(2, 42)) + [64, 65, 66, 101, 128, 129, 130, 256, 257, 258]     # versions = patches + 1
 BIG_LINES = 3200                                # 64-byte lines: 204 800 bytes; gzip leaves > 64 KiB of the hexadecimal text
-BIG_SHIFTS = [0, 1, 2, 3, 4, 5]
+BIG_SHIFTS = [0, 1, 2, 3, 4, 5, 10, 11, 12]      # 10..12: lines of three-byte characters only, shifted by 0, 1, 2 bytes
 BIG_WRITE_POINTS = [0, 1, 1022, 1023, 1024, 1025, 2047, 2048, 2049, 3071, 3072, 3073]     # + the last two; 1024 lines = 64 KiB written
 
 
@@ -792,12 +792,25 @@ def big_line(i, salt):
     return h[:63 - len(ch.encode("utf-8"))] + ch + "\n"
 
 
+def dense_line(i, salt):
+    """64 bytes of UTF-8: 21 three-byte characters (two digest bytes each, so the text stays > 64 KiB when compressed) and a
+    newline - wherever a reader cuts the byte stream, it cuts inside a character unless it hits a multiple of three"""
+    d = b"".join(hashlib.sha1(b"%d/%d/%d" % (i, salt, k)).digest() for k in range(3))
+    return "".join(chr(0x4E00 + ((d[2 * k] << 8 | d[2 * k + 1]) % 20000)) for k in range(21)) + "\n"
+
+
 def big_versions(shift, nlines=BIG_LINES):
+    if shift >= 10:
+        return _big_versions("ab"[:shift - 10], dense_line, nlines)
+    return _big_versions("012345"[:shift], big_line, nlines)
+
+
+def _big_versions(lead, big_line, nlines):
     """-> (versions, scripts): v0 -> v1 replaces most of the file (a patch of > 64 KiB compressed), v1 -> v2 and v2 -> v3 are small
     edits near the top and the end.  The first line is `shift` bytes longer than the others, so that every 8 KiB / 64 KiB
     boundary of the byte stream falls `shift` bytes before the end of a line: at the line end (0), on the newline (1), inside
     the multi-byte character (2-4) or right in front of it."""
-    v0 = ["012345"[:shift] + big_line(0, 0)] + [big_line(i, 0) for i in range(1, nlines)]
+    v0 = [lead + big_line(0, 0)] + [big_line(i, 0) for i in range(1, nlines)]
     lo, hi = 100, nlines - 100
     v1 = v0[:lo] + [big_line(i, 1) for i in range(lo, hi + 7)] + v0[hi:]
     v2 = v1[:3] + ["t" * 54 + "é€\U0001d11e\n"] + v1[4:-2] + v1[-1:]
